@@ -707,11 +707,12 @@ impl Parser {
     fn state_ipv4_colon(&mut self, tok: &Token) -> Result<Action, Error> {
         match tok.tok_type() {
             TokType::IntegerLiteral => {
+                let port = Val::from_token(tok)?;
+                if !matches!(port, Val::U64(p) if p <= u16::MAX as u64) {
+                    return Err(ParseError);
+                }
                 self.push(Node::Loc(tok.loc()));
-                Ok(Action::Shift(
-                    State::ReduceSockAddr,
-                    Node::Literal(Val::from_token(tok)?),
-                ))
+                Ok(Action::Shift(State::ReduceSockAddr, Node::Literal(port)))
             }
             _ => Err(ParseError),
         }
